@@ -238,6 +238,7 @@ type vpKV struct {
 	cutLat    time.Duration
 	latResp   time.Duration // bound of the response leg (0 = immediate)
 	ackYield  bool
+	getRespLat time.Duration // fixed response latency of Get
 	hangLat   time.Duration // an unanswered request fails after this long
 	hangIsTimeout bool // an unanswered request fails after the client's 5s request time-out instead of hanging for ever
 	afterApply func(op string)
@@ -306,7 +307,11 @@ func (k *vpKV) end(op string, f int) int {
 	if k.ackYield {
 		vpYield(op + ".ack") // scheduling point between application and response (stop-point harnesses)
 	}
-	vpDelay(op+".resp", 0, k.latResp)
+	if op == "get" && k.getRespLat > 0 {
+		vpDelay("get.resp", k.getRespLat, k.getRespLat) // the answer to a read travels this long
+	} else {
+		vpDelay(op+".resp", 0, k.latResp)
+	}
 	if k.st.cut && f == vpFaultNone {
 		// applied, but the acknowledgement is lost
 		if vpChoose("cutack."+op, 2) == 1 {
